@@ -895,6 +895,8 @@ loop:
 				}
 
 				if fr.Type() == FrameHeaders {
+					verifTick(verifTickSrvOpening)
+
 					sc.goAwayMu.Lock()
 					closing := isClosing()
 					if !closing {
